@@ -41,7 +41,7 @@ def info(tier):
         "required_cells": [f"family:{f}" for f in NG.FAMILIES] + ["sense:min", "sense:max", "method:auto", "method:SLSQP",
                                                                    "method:trust-constr", "method:L-BFGS-B", "method:BFGS",
                                                                    "wiring:fun", "wiring:jac", "wiring:hess", "wiring:cfun", "wiring:cjac",
-                                                                   "wiring:bounds", "wiring:x0", "x0:default", "x0:explicit", "end-to-end", "re-solve"],
+                                                                   "wiring:bounds", "wiring:x0", "x0:default", "x0:explicit", "end-to-end", "re-solve", "staged-model"],
         "assumptions": [
             "SciPy's solvers are trusted; only optyx's use of them is judged",
             "end-to-end verdicts only where raw SciPy with reference callables itself converges to the manufactured optimum (else non-comparable)",
@@ -72,9 +72,24 @@ def run_problem(prob, method, x0mode, rec, rng, seams):
     def bad(what, **kw):
         rec.violation(what, {"prob": prob, "method": method, "x0mode": x0mode, "show": show, **kw})
 
+    staged = bool(prob.get("constraints")) and len(prob["constraints"]) >= 2 and x0mode == "default" and (len(prob["objective"]) + len(names)) % 3 == 0
     try:
         b = B.Builder(prob["decls"])
-        P = b.problem(prob)
+        if staged:
+            # the model is written in two stages: solved once with the first constraint only, then the remaining
+            # constraints are added with ONE subject_to([...]) call; the comparison below is for the final model
+            P = b.problem(dict(prob, constraints=prob["constraints"][:1]))
+            with warnings.catch_warnings():
+                warnings.simplefilter("ignore")
+                P.solve(method=method)
+            lst = []
+            for r_ in prob["constraints"][1:]:
+                c_ = b.rel(r_)
+                lst.extend(c_ if isinstance(c_, list) else [c_])
+            P.subject_to(lst)
+            rec.cmp(1, "staged-model")
+        else:
+            P = b.problem(prob)
     except Exception as ex:
         bad("build-raises:" + type(ex).__name__, error=repr(ex)[:300])
         return
